@@ -19,6 +19,11 @@
 (*           at such a position are "gnum": q = position in quarter grid steps   *)
 (*           (4n = the float n*scale), ix = strictly between q and q+1.          *)
 (*           [k |-> "bool"]  [k |-> "enum", mem |-> << [n, v] ... >>]            *)
+(*           a string record with the extra field text (TextType) and a tuple    *)
+(*           <<el, el>> with the extra field limit (LimitsType: an ordered pair) *)
+(*           are the two convenience types exported as string / tuple;           *)
+(*           [k |-> "command", arg, res] (arg / res a type or [k |-> "none"])    *)
+(*           is the pseudo type of commands (description and compatibility only) *)
 (*           [k |-> "string", minc, maxc, utf8]  [k |-> "blob", minb, maxb]      *)
 (*           [k |-> "array", el, minlen, maxlen]  [k |-> "tuple", els]           *)
 (*           [k |-> "struct", mem |-> << [n, t] ... >>, opt |-> << names >>]     *)
@@ -255,6 +260,23 @@ VBlob(dt, c, path) ==
          ELSE IF c.blen >= 0 THEN BlobLen(dt, c.blen) ELSE AnyErr    \* undecodable base64 is never bytes
     ELSE IF c.j = "bytes" THEN BlobLen(dt, c.len) ELSE {WT}
 
+(* LimitsType: the validated pair must be ordered (min <= max); "unknown" when the abstraction cannot tell *)
+IsLimit(d) == "limit" \in DOMAIN d
+Ord3(a, b) ==
+    CASE a.j = "int" /\ b.j = "int" -> IF a.n < b.n THEN "le" ELSE IF a.n > b.n THEN "gt"
+                                       ELSE IF Abs(a.n) >= HUGE THEN "unknown" ELSE "le"
+      [] a.j = "num" /\ b.j = "num" -> IF a.t < b.t THEN "le" ELSE IF a.t > b.t THEN "gt"
+                                       ELSE IF Abs(a.t) >= HUGE \/ (a.ix /\ b.ix) THEN "unknown" ELSE IF a.ix THEN "gt" ELSE "le"
+      [] a.j = "gnum" /\ b.j = "gnum" -> IF a.q < b.q THEN "le" ELSE IF a.q > b.q THEN "gt"
+                                         ELSE IF Abs(a.q) >= HUGE \/ (a.ix /\ b.ix) THEN "unknown" ELSE IF a.ix THEN "gt" ELSE "le"
+      [] a.j = "bint" /\ b.j = "bint" -> IF Abs(a.d) = FAR \/ Abs(b.d) = FAR THEN (IF a.a < b.a THEN "le" ELSE IF a.a > b.a THEN "gt" ELSE "unknown")
+                                         ELSE IF PLE(P(a.a, a.d), P(b.a, b.d)) THEN "le" ELSE "gt"
+      [] OTHER -> "unknown"
+PairOrd(v) == Ord3(v.xs[1], v.xs[2])
+OrderFilter(os) ==
+    {o \in os : ~o.ok \/ PairOrd(o.v) # "gt"}
+    \cup (IF \E o \in os : o.ok /\ PairOrd(o.v) # "le" THEN {RE} ELSE {})
+
 PrevAt(prev, i) == IF prev.j = "list" /\ i <= Len(prev.xs) THEN prev.xs[i] ELSE None
 
 (* ---------------------------------------------------------------- the oracle *)
@@ -294,7 +316,9 @@ Val(dt, c0, prev, path) ==
                 ELSE Combine(outs)                    \* length of the result = length offered
       [] dt.k = "tuple" ->
            IF c.j # "list" \/ Len(c.xs) # Len(dt.els) THEN AnyErr
-           ELSE Combine([i \in 1 .. Len(dt.els) |-> Val(dt.els[i], c.xs[i], PrevAt(prev, i), path)])
+           ELSE LET R == Combine([i \in 1 .. Len(dt.els) |-> Val(dt.els[i], c.xs[i], PrevAt(prev, i), path)]) IN
+                IF IsLimit(dt) /\ path # "call" THEN OrderFilter(R) ELSE R     \* (__call__ is the plain tuple conversion)
+      [] dt.k = "command" -> AnyErr                                          \* a command has no values
       [] dt.k = "struct" ->
            IF c.j # "obj" THEN AnyErr
            ELSE LET names == Names(dt)
@@ -340,6 +364,7 @@ InSet(dt, v, lim) ==
                            /\ \A i \in 1 .. Len(v.xs) : InSet(dt.el, v.xs[i], lim)
       [] dt.k = "tuple" -> /\ v.j = "list" /\ Len(v.xs) = Len(dt.els)
                            /\ \A i \in 1 .. Len(v.xs) : InSet(dt.els[i], v.xs[i], lim)
+                           /\ (IsLimit(dt) /\ lim) => PairOrd(v) # "gt"
       [] dt.k = "struct" -> /\ v.j = "obj"
                             /\ Keys(v) \subseteq Names(dt)
                             /\ Cardinality(Keys(v)) = Len(v.kv)
@@ -632,7 +657,8 @@ VS(d) ==
                     n \in {d.minlen, d.maxlen}}
       [] d.k = "tuple" ->
            LET seqs == [i \in 1 .. Len(d.els) |-> SetToSeq(VS(d.els[i]))] IN
-           {L(Diag(seqs, s)) : s \in 1 .. MaxLen(seqs)}
+           IF IsLimit(d) THEN {v \in {L(<<x, y>>) : x \in VS(d.els[1]), y \in VS(d.els[1])} : PairOrd(v) = "le"}
+           ELSE {L(Diag(seqs, s)) : s \in 1 .. MaxLen(seqs)}
       [] d.k = "struct" ->
            LET seqs == [i \in 1 .. Len(d.mem) |-> SetToSeq(VS(d.mem[i].t))]
                full(s) == [i \in 1 .. Len(d.mem) |-> [k |-> d.mem[i].n, v |-> Diag(seqs, s)[i]]]
@@ -717,6 +743,8 @@ Rebuild(i) ==
                            opt |-> IF HasKey(i, "optional")
                                    THEN [x \in 1 .. Len(ValOf(i, "optional").xs) |-> ValOf(i, "optional").xs[x].s]
                                    ELSE [x \in 1 .. Len(m) |-> m[x].k]]
+      [] ty = "command" -> [k |-> "command", arg |-> IF HasKey(i, "argument") THEN Rebuild(ValOf(i, "argument")) ELSE [k |-> "none"],
+                            res |-> IF HasKey(i, "result") THEN Rebuild(ValOf(i, "result")) ELSE [k |-> "none"]]
       [] OTHER -> [k |-> "invalid"]
 
 (* a canonical datainfo of d: only the non-default properties (keys in sorted order) *)
@@ -741,6 +769,8 @@ Describe(d) ==
              \o <<KV("max", I(d.max)), KV("min", I(d.min))>>
              \o OptKV(d.rel # -1, "relative_resolution", N(2 * d.rel))
              \o <<KV("scale", [j |-> "gscale", sid |-> d.sid]), KV("type", Txt("scaled"))>> \o OptKV(d.unit # "", "unit", Txt(d.unit)))
+      [] d.k = "command" -> O(OptKV(d.arg.k # "none", "argument", Describe(d.arg)) \o OptKV(d.res.k # "none", "result", Describe(d.res))
+                              \o <<KV("type", Txt("command"))>>)
       [] d.k = "bool" -> O(<<KV("type", Txt("bool"))>>)
       [] d.k = "enum" -> O(<<KV("members", O([x \in 1 .. Len(d.mem) |-> KV(d.mem[x].n, I(d.mem[x].v))])), KV("type", Txt("enum"))>>)
       [] d.k = "string" -> O(OptKV(d.utf8, "isUTF8", B(TRUE)) \o OptKV(d.maxc # NoLim, "maxchars", I(d.maxc))
@@ -766,11 +796,28 @@ Deco(d, u, f, dflt) ==
       [] d.k = "array" -> [d EXCEPT !.el = Deco(d.el, u, f, dflt)]
       [] d.k = "tuple" -> [d EXCEPT !.els = [x \in 1 .. Len(d.els) |-> Deco(d.els[x], u, f, dflt)]]
       [] d.k = "struct" -> [d EXCEPT !.mem = [x \in 1 .. Len(d.mem) |-> [n |-> d.mem[x].n, t |-> Deco(d.mem[x].t, u, f, dflt)]]]
+      [] d.k = "command" -> [k |-> "command", arg |-> Deco(d.arg, u, f, dflt), res |-> Deco(d.res, u, f, dflt)]
       [] OTHER -> d
+
+(* what the exported datainfo can say about a type: TextType is described as a string, LimitsType as a tuple *)
+RECURSIVE Canon(_)
+Canon(d) ==
+    CASE d.k = "string" -> [k |-> "string", minc |-> d.minc, maxc |-> d.maxc, utf8 |-> d.utf8]
+      [] d.k = "tuple" -> [k |-> "tuple", els |-> [x \in 1 .. Len(d.els) |-> Canon(d.els[x])]]
+      [] d.k = "array" -> [d EXCEPT !.el = Canon(d.el)]
+      [] d.k = "struct" -> [d EXCEPT !.mem = [x \in 1 .. Len(d.mem) |-> [n |-> d.mem[x].n, t |-> Canon(d.mem[x].t)]]]
+      [] d.k = "command" -> [k |-> "command", arg |-> Canon(d.arg), res |-> Canon(d.res)]
+      [] OTHER -> d
+RECURSIVE HasLimit(_)
+HasLimit(d) == CASE d.k = "tuple" -> IsLimit(d) \/ \E i \in 1 .. Len(d.els) : HasLimit(d.els[i])
+                 [] d.k = "array" -> HasLimit(d.el)
+                 [] d.k = "struct" -> \E i \in 1 .. Len(d.mem) : HasLimit(d.mem[i].t)
+                 [] d.k = "command" -> HasLimit(d.arg) \/ HasLimit(d.res)
+                 [] OTHER -> FALSE
 
 (* law on the model: the description denotes the type, also with unknown keys added (must-ignore) *)
 WithUnknown(i) == O(i.kv \o <<KV("x-unknown", I(1))>>)
-DescribeLaw(d) == Rebuild(Describe(d)) = d /\ Rebuild(WithUnknown(Describe(d))) = d
+DescribeLaw(d) == Rebuild(Describe(d)) = Canon(d) /\ Rebuild(WithUnknown(Describe(d))) = Canon(d)
 
 (* compatibility by its meaning: every value valid for a is valid for b, computed over a finite  *)
 (* universe that is exact for interval-like and finite value sets                              *)
@@ -788,6 +835,7 @@ CU(a) ==
                opt == Rng(a.opt) IN
            UNION {{O([base EXCEPT ![x] = KV(a.mem[x].n, v)]) : v \in CU(a.mem[x].t)} : x \in 1 .. Len(a.mem)}
            \cup {O(SelectSeq(base, LAMBDA e : e.k \notin opt))} \cup {O(SelectSeq(base, LAMBDA e : e.k # o)) : o \in opt}
+      [] a.k \in {"command", "none"} -> {}
       [] OTHER -> VS(a)
 MayAccept(b, v) == \E o \in Val(b, v, None, "write") : o.ok
 (* v sits exactly on a tolerance boundary the property does not decide (accepted or out of range) *)
@@ -808,6 +856,7 @@ Supported(a, b) ==
              [] b.k = "bool" -> 0 <= a.min /\ a.max <= 1
              [] OTHER -> FALSE
       [] a.k = "bool" -> b.k = "bool"
+      [] a.k \in {"command", "none"} -> FALSE
       [] a.k = "gscaled" -> b.k = "gscaled" /\ b.sid = a.sid /\ b.min <= a.min /\ a.max <= b.max
       [] a.k = "bigint" -> b.k = "bigint" /\ PLE(b.min, a.min) /\ PLE(a.max, b.max)
       [] a.k = "enum" -> b.k = "enum" /\ \A m \in Rng(a.mem) : ByVal(b, m.v) # {}
@@ -827,6 +876,7 @@ HasGS(d) == CASE d.k = "gscaled" -> TRUE
               [] d.k = "array" -> HasGS(d.el)
               [] d.k = "tuple" -> \E i \in 1 .. Len(d.els) : HasGS(d.els[i])
               [] d.k = "struct" -> \E i \in 1 .. Len(d.mem) : HasGS(d.mem[i].t)
+              [] d.k = "command" -> HasGS(d.arg) \/ HasGS(d.res)
               [] OTHER -> FALSE
 GClash(a, b) ==
     CASE a.k = "gscaled" /\ b.k = "gscaled" -> a.sid # b.sid
@@ -835,7 +885,19 @@ GClash(a, b) ==
       [] a.k = "struct" /\ b.k = "struct" /\ Names(a) = Names(b) ->
            \E i \in 1 .. Len(a.mem) : GClash(a.mem[i].t, TypeOf(b, a.mem[i].n))
       [] OTHER -> HasGS(a) \/ HasGS(b)
-AllowedPass(a, b) == IF GClash(a, b) THEN {TRUE, FALSE} ELSE IF ~Subset(a, b) THEN {FALSE} ELSE IF Supported(a, b) /\ SubsetSure(a, b) THEN {TRUE} ELSE {TRUE, FALSE}
+(* commands: the argument of a must fit into the argument of b, the result of b into the result of a; *)
+(* types with an ordered pair (LimitsType) are left free (compatible() treats them as plain tuples)     *)
+RECURSIVE AllowedPass(_, _)
+CmdPart(x, y) == IF x.k = "none" /\ y.k = "none" THEN {TRUE}
+                 ELSE IF x.k = "none" \/ y.k = "none" THEN {FALSE} ELSE AllowedPass(x, y)
+AllowedPass(a0, b0) ==
+    LET a == Canon(a0)
+        b == Canon(b0) IN
+    IF HasLimit(a0) \/ HasLimit(b0) THEN {TRUE, FALSE}
+    ELSE IF a.k = "command" /\ b.k = "command"
+    THEN {x /\ y : x \in CmdPart(a.arg, b.arg), y \in CmdPart(b.res, a.res)}
+    ELSE IF a.k = "command" THEN {FALSE}
+    ELSE IF GClash(a, b) THEN {TRUE, FALSE} ELSE IF ~Subset(a, b) THEN {FALSE} ELSE IF Supported(a, b) /\ SubsetSure(a, b) THEN {TRUE} ELSE {TRUE, FALSE}
 
 (* --------------------------------------------------------------- type catalogue *)
 Dbl(lo, hi, a, r) == [k |-> "double", min |-> lo, max |-> hi, abs |-> a, rel |-> r]
@@ -844,6 +906,10 @@ Scl(s, lo, hi) == [k |-> "scaled", scale |-> s, min |-> lo, max |-> hi]
 BoolT == [k |-> "bool"]
 BigT(lo, hi) == [k |-> "bigint", min |-> lo, max |-> hi]
 GScl(sid, lo, hi) == [k |-> "gscaled", sid |-> sid, min |-> lo, max |-> hi]
+Text(hi) == [k |-> "string", minc |-> 0, maxc |-> hi, utf8 |-> FALSE, text |-> TRUE]
+Lim(el) == [k |-> "tuple", els |-> <<el, el>>, limit |-> TRUE]
+Cmd(a, r) == [k |-> "command", arg |-> a, res |-> r]
+NoT == [k |-> "none"]
 Enm(mem) == [k |-> "enum", mem |-> mem]
 Strg(lo, hi, u) == [k |-> "string", minc |-> lo, maxc |-> hi, utf8 |-> u]
 Blob(lo, hi) == [k |-> "blob", minb |-> lo, maxb |-> hi]
@@ -861,7 +927,10 @@ Leaves == <<Dbl(-16, 40, 0, 0), Dbl(0, 160, 4, 0), Dbl(16, 16, 0, 1), Dbl(-NoLim
             \* scales whose float quotient limit/scale is inexact on either side, negative limits, tiny / huge / periodic scales
             GScl("0.1", 3, 7), GScl("0.1", -7, -3), GScl("0.2", -3, 7), GScl("0.01", 29, 57), GScl("0.003", -9, 33),
             GScl("1/3", -2, 7), GScl("2^-20", 0, 1000000), GScl("1.000001e-3", 0, 1000000), GScl("0.0254/4096", -5, 100000),
-            GScl("7", -3, 9), GScl("1e6", 0, 12)>>
+            GScl("7", -3, 9), GScl("1e6", 0, 12),
+            \* convenience types and the shapes the short constructor forms produce (StringType(n), BLOBType(n), IntRange())
+            Text(NoLim), Text(5), Lim(Dbl(-16, 40, 4, 0)), Lim(IntT(-2, 3)), Lim(Scl(4, 0, 160)), Lim(GScl("0.1", 3, 7)),
+            Strg(2, 2, FALSE), Blob(2, 2), IntT(-16777216, 16777216)>>
 NL == Len(Leaves)
 Lf(i) == Leaves[((i - 1) % NL) + 1]
 SmallLeaves == <<IntT(-2, 3), GScl("0.1", 3, 7), BigT(P(1, 1), P(4, -1)), Blob(1, 3), Scl(4, 0, 160), GScl("1/3", -6, 1000000),
@@ -876,7 +945,8 @@ Depth1 ==
     \o [i \in 1 .. NL |-> Tup(<<Lf(i), Lf(i + 1)>>)]
     \o [i \in 1 .. NL |-> AB(Lf(i), Lf(i + 5), <<"b">>)]
     \o [i \in 1 .. NL |-> AB(Lf(i + 3), Lf(i), IF i % 2 = 0 THEN <<>> ELSE <<"a", "b">>)]
-    \o <<Tup(<<Lf(6), Lf(13), Lf(8)>>), Tup(<<Lf(15)>>)>>
+    \o <<Tup(<<Lf(6), Lf(13), Lf(8)>>), Tup(<<Lf(15)>>), Arr(Lf(6), 2, 2), Arr(Lim(IntT(-2, 3)), 0, 2),
+         AB(Lim(Dbl(-16, 40, 4, 0)), Text(5), <<"b">>)>>
 Depth2N(ns) ==
     [i \in 1 .. ns |-> Arr(Arr(Sm(i), 0, 2), 0, 2)]
     \o [i \in 1 .. ns |-> Arr(Tup(<<Sm(i), Sm(i + 1)>>), 1, 2)]
@@ -890,7 +960,8 @@ Depth1Quick ==
     \o [i \in 1 .. NL |-> Tup(<<Lf(i), Lf(i + 1)>>)]
     \o [i \in 1 .. NL |-> AB(Lf(i), Lf(i + 5), <<"b">>)]
     \o [i \in 1 .. NL \div 2 |-> AB(Lf(2 * i + 3), Lf(2 * i), IF i % 2 = 0 THEN <<>> ELSE <<"a", "b">>)]
-    \o <<Tup(<<Lf(6), Lf(13), Lf(8)>>), Tup(<<Lf(15)>>)>>
+    \o <<Tup(<<Lf(6), Lf(13), Lf(8)>>), Tup(<<Lf(15)>>), Arr(Lf(6), 2, 2), Arr(Lim(IntT(-2, 3)), 0, 2),
+         AB(Lim(Dbl(-16, 40, 4, 0)), Text(5), <<"b">>)>>
 AllPairs == [i \in 1 .. NL * NL |-> Tup(<<Lf(((i - 1) \div NL) + 1), Lf(((i - 1) % NL) + 1)>>)]
 Depth3 ==
     [i \in 1 .. NS |-> Arr(Arr(Arr(Sm(i), 0, 2), 1, 2), 0, 2)]
@@ -899,7 +970,7 @@ Depth3 ==
     \o [i \in 1 .. NS |-> Stc(<<M("s", Arr(AB(Sm(i), Sm(i + 1), <<"b">>), 0, 2)), M("k", Sm(i + 2))>>, <<>>)]
 
 
-BaseSeq(tier) == CASE tier = "mc" -> Leaves \o SubSeq(Depth1, 1, 2 * NL)
+BaseSeq(tier) == CASE tier = "mc" -> Leaves \o SubSeq(Depth1, 1, NL)
                    [] tier = "quick" -> Leaves \o Depth1Quick \o Depth2N(4)
                    [] tier = "thorough" -> Leaves \o Depth1 \o Depth2 \o AllPairs \o Depth3
 
@@ -926,9 +997,15 @@ CContainers ==
     \o [i \in 1 .. NCS |-> AB(CSmall[i], CSmall[(i % NCS) + 1], <<"a", "b">>)]
     \o <<Stc(<<M("a", CSmall[3])>>, <<>>), Stc(<<M("a", CSmall[3]), M("b", CSmall[8]), M("c", CSmall[6])>>, <<"c">>),
          Tup(<<CSmall[3]>>), Tup(<<CSmall[3], CSmall[8], CSmall[6]>>), Arr(Arr(CSmall[3], 0, 2), 0, 2), Arr(Arr(CSmall[4], 0, 2), 0, 3)>>
-CTypes(tier) == IF tier = "thorough" THEN CLeaves \o CContainers \o Depth2 ELSE CLeaves \o CContainers
+Commands == <<Cmd(NoT, NoT), Cmd(IntT(0, 10), NoT), Cmd(IntT(0, 5), NoT), Cmd(NoT, IntT(0, 10)), Cmd(NoT, IntT(0, 5)),
+              Cmd(Dbl(0, 160, 0, 0), Dbl(0, 80, 0, 0)), Cmd(Dbl(0, 80, 0, 0), Dbl(0, 160, 0, 0)),
+              Cmd(Tup(<<IntT(0, 10), Strg(1, 3, FALSE)>>), Enm(<<[n |-> "off", v |-> 0], [n |-> "on", v |-> 1]>>)),
+              Cmd(AB(IntT(0, 10), Strg(0, 8, TRUE), <<"b">>), Arr(Scl(4, 0, 160), 0, 2)),
+              Cmd(GScl("0.1", 3, 7), Text(5))>>
+CTypes(tier) == IF tier = "thorough" THEN CLeaves \o CContainers \o Commands \o Depth2
+                ELSE CLeaves \o CContainers \o Commands \o <<Text(5), Text(NoLim), Lim(IntT(0, 10)), Lim(Dbl(0, 160, 0, 0))>>
 (* types whose description / rebuild / copy is examined: the C01 catalogue with presentation properties *)
-ETypes(tier) == LET base == BaseSeq(tier) IN
+ETypes(tier) == LET base == BaseSeq(tier) \o Commands IN
     [i \in 1 .. Len(base) |-> Deco(base[i], IF i % 3 = 0 THEN "" ELSE IF i % 3 = 1 THEN "K" ELSE "$/min",
                                             IF i % 2 = 0 THEN "%g" ELSE "%.3f", i % 4 < 2)]
 
@@ -977,10 +1054,17 @@ PrevFree == PrevFreeR(dt, CaseRecs(dt))
 NonVacuous == NonVacuousR(dt, CaseRecs(dt))
 RoundTrip == RoundTripLaw(dt) /\ VS(dt) # {}
 (* every type is compatible with itself, and compatibility by meaning is transitive on the catalogue *)
-CompatSane == /\ Subset(dt, dt) /\ Supported(dt, dt) /\ AllowedPass(dt, dt) = {TRUE}
-              /\ \A i \in 1 .. Len(TypeSeq(Tier)) : Supported(dt, TypeSeq(Tier)[i]) => Subset(dt, TypeSeq(Tier)[i])
-              /\ \A i, j \in 1 .. Len(TypeSeq(Tier)) :
-                    (Subset(dt, TypeSeq(Tier)[i]) /\ Subset(TypeSeq(Tier)[i], TypeSeq(Tier)[j])) => Subset(dt, TypeSeq(Tier)[j])
+CompatSane ==
+    IF HasLimit(dt) THEN AllowedPass(dt, dt) = {TRUE, FALSE}
+    ELSE IF dt.k = "command" THEN AllowedPass(dt, dt) = {TRUE}
+    ELSE /\ Subset(dt, dt) /\ Supported(dt, dt) /\ AllowedPass(dt, dt) = {TRUE}
+         /\ \A i \in 1 .. Len(TypeSeq(Tier)) :
+               LET b == TypeSeq(Tier)[i] IN
+               (~HasLimit(b) /\ b.k # "command") =>
+                  /\ Supported(dt, b) => Subset(dt, b)
+                  /\ \A j \in 1 .. Len(TypeSeq(Tier)) :
+                        LET c == TypeSeq(Tier)[j] IN
+                        (~HasLimit(c) /\ c.k # "command" /\ Subset(dt, b) /\ Subset(b, c)) => Subset(dt, c)
 DescribeRebuild == DescribeLaw(Deco(dt, "K", "%.3f", TRUE)) /\ DescribeLaw(Deco(dt, "$", "%g", FALSE))
 AllLaws(d, R) == TotalR(d, R) /\ SoundR(d, R) /\ IdempotentR(d, R) /\ PrevFreeR(d, R) /\ NonVacuousR(d, R)
 =============================================================================
